@@ -548,7 +548,7 @@ inline void runMsgPack(Ctx& C) {
   G.keys = {"", "a", pattern(32)};
   G.deepFrom = 64;
   G.dupKeys = false;
-  int N = atoi(C.opt("nodes", "3").c_str());
+  int N = atoi(C.opt("nodes", T ? "4" : "3").c_str());
   G.upTo(N, [&](const MValue& t) { one(t, plain); });
   // nesting chains
   std::vector<int> depths = {1, 2, 3, 10, 11, 12};
